@@ -1,7 +1,8 @@
 """C04 — splitting nested containers visits every inner element.
 
 Observe: Task.split(a=nested, container_ndim={"a": n}) run end to end with a term-valued body
-(alone, inside an outer splitter, inside an inner splitter): returned outputs + body starts.
+(alone, inside an outer splitter, inside an inner splitter, and as a workflow node splitting over the nested output
+of a split upstream node): returned outputs + body starts.
 Oracle: depth-first collection of the elements at depth n (10 lines, below).
 MAY class: inner pairing of a *regular* multi-dimensional value with a flat list of the same
 element count (pydra rejects on shape; the C01 statement leaves that open) — accepted only if
@@ -10,6 +11,7 @@ rejected before any job ran.
 from __future__ import annotations
 
 import itertools
+import typing as ty
 
 from vp import env, evlog
 from vp.terms import s as render
@@ -67,7 +69,76 @@ def label(v, counter):
     return [label(x, counter) for x in v]
 
 
+def _defs():
+    from pydra.compose import python, workflow
+    from vp.terms import F
+
+    @python.define(outputs=["out"])
+    def Pick(i: int, table: list) -> ty.Any:
+        return table[i]
+
+    @workflow.define(outputs=["out"])
+    def WfUp(table: list, idx: list, nd: int, comb: bool = False) -> ty.Any:
+        """an upstream node split over idx returns table[i]; the downstream node splits over that output"""
+        up = workflow.add(Pick(table=table).split(i=idx), name="up")
+        t = F().split(a=up.out, container_ndim={"a": nd}) if nd else F().split(a=up.out)
+        if comb:
+            t = t.combine("a")        # leaves the upstream axis: one group per upstream state
+        down = workflow.add(t, name="down")
+        return down.out
+    return Pick, WfUp
+
+
+try:  # pydra is bound by the check CLI / worker before this module is imported
+    Pick, WfUp = _defs()
+except Exception:  # pragma: no cover
+    Pick = WfUp = None
+
+
+def decide_wf(case, wctx):
+    """context wf_upstream: value = one nested list per upstream state; n = 0 means 'no container_ndim given' (= 1)"""
+    from pydra.engine.submitter import Submitter
+    from pydra.engine.workflow import Workflow
+    Workflow.clear_cache()
+    vals, n = case["value"], case["n"]
+    want = [f"F(a={render(e)})" for v in vals for e in collect(v, n or 1)]
+    want_out = [[f"F(a={render(e)})" for e in collect(v, n or 1)] for v in vals] if case.get("comb") else want
+    r = {"case": case, "sig": env.sig_of(case), "counters": {"ctx_wf_upstream": 1},
+         "nontrivial": len(want) >= 2 and len(vals) >= 2}
+    log = evlog.start(wctx.fresh_dir("log") / "ev.jsonl")
+    err = out = None
+    try:
+        with Submitter(worker="debug", cache_root=wctx.fresh_dir("cache")) as sub:
+            res = sub(WfUp(table=vals, idx=list(range(len(vals))), nd=n, comb=bool(case.get("comb"))), raise_errors=True)
+        out = [list(x) if isinstance(x, (list, tuple)) and case.get("comb") else x for x in res.outputs.out]
+    except Exception as e:
+        err = f"{type(e).__name__}: {str(e)[:200]}"
+    starts = [e["term"] for e in evlog.read(log) if e["ev"] == "start"]
+    r["counters"]["body_starts"] = len(starts)
+    r["counters"]["elements_expected"] = len(want)
+    r["obs"] = {"out": out if out is None else out[:8], "error": err, "starts": len(starts)}
+    if err is not None or out != want_out or set(starts) != set(want):
+        r["verdict"] = "violated"
+        r["witness"] = {"why": "downstream jobs are not the depth-n elements of every upstream output, in order"
+                               " (grouped by upstream state when combined)",
+                        "error": err, "expected": want_out[:12], "got": None if out is None else out[:12],
+                        "n_expected": len(want), "n_got": None if out is None else len(out)}
+        # mechanism: the number of elements each upstream state contributes is mis-counted - elements are lost when the
+        # outputs are regular with n >= 2, or all attributed to the first upstream state when the counts differ
+        shapes = [regular_shape(v, n) for v in vals] if n >= 2 else [None]
+        counts = [len(collect(v, n or 1)) for v in vals]
+        flat = [x for g in out for x in g] if (out and case.get("comb") and all(isinstance(g, list) for g in out)) else out
+        if err is None and ((n >= 2 and all(sh is not None for sh in shapes) and len(out or []) < len(want))
+                            or (case.get("comb") and len(set(counts)) > 1 and flat == want)):
+            r["mech"] = "inner-len-assumes-2d-regular"
+        return r
+    r["verdict"] = "held"
+    return r
+
+
 def decide(case, wctx):
+    if case["context"] == "wf_upstream":
+        return decide_wf(case, wctx)
     from vp.terms import F
     from pydra.engine.submitter import Submitter
     v, n, ctxk = case["value"], case["n"], case["context"]
@@ -155,8 +226,16 @@ def run(ctx):
         v = gen_nested(rng, depth, [0], hi=3 if depth < 3 else 2)
         n = rng.randint(1, depth)
         add(v, n, rng.choice(contexts))
+    # a workflow node splitting over the (nested) output of a split upstream node, with and without container_ndim
+    for i in range(40 if quick else 1200):
+        depth = rng.choice([1, 2, 2, 3])
+        cnt = [0]
+        vals = [gen_nested(rng, depth, cnt, hi=3 if depth < 3 else 2, p_empty=0.05) for _ in range(rng.randint(1, 3))]
+        add(vals, rng.choice([0] + list(range(1, depth + 1))), "wf_upstream")
+        if rng.random() < 0.5:
+            cases[-1]["comb"] = True
     ctx.rule = ("nested lists of uniform depth 1-3, inner lengths 0-3, unique leaf tokens, container_ndim 1..depth, "
-                "alone / in outer [a,b],[b,a] / inner (a,b); all structures of depth<=2 with lengths 0..%d enumerated; "
+                "alone / in outer [a,b],[b,a] / inner (a,b) / as the output of a split upstream workflow node; all structures of depth<=2 with lengths 0..%d enumerated; "
                 "non-trivial = n>=2 and >=2 elements; distinct = distinct (value, n, context)" % hi)
     ctx.record_all(ctx.pmap("vp.props.c04:case_batch",
                             [{"cases": cases[i:i + 12]} for i in range(0, len(cases), 12)],
